@@ -658,7 +658,7 @@ OAX = AX.replace("axis ==", "old(axis) ==")
 WF_T = ["self._data.fmt == 'csr' or self._data.fmt == 'csc'",
         "len(self._sample_ids) == self._data.shape[1] and len(self._observation_ids) == self._data.shape[0]"]
 
-contract(F, 'Table.filter', tier='A', props=['C08', 'C05', 'C07'],
+contract(F, 'Table.filter', tier='A', props=['C08', 'C05', 'C07', 'C20'],
     types={'self': 'Obj:Table', 'ids_to_keep': 'Val', 'axis': 'Str', 'invert': 'Bool', 'inplace': 'Bool'},
     requires=WF_T,
     returns='Alias[self]|Obj:Table',
